@@ -15,7 +15,7 @@ import math
 import numpy as np
 from hypothesis import strategies as st
 
-from vp.pbt import SubCheck, HarnessError
+from vp.pbt import SubCheck, HarnessError, represent
 from vp.ref import geometry as G
 
 PROPERTY = "C12"
@@ -133,8 +133,8 @@ def oracle_angular(case, rec):
             or ndist >= 3:
         rec.nontrivial(True)
 
-    ok, g = rec.call("construct_geogrid", GeoGrid, np.arange(2.0), lat_in,
-                     lon_in, silence_level=3)
+    ok, g = rec.call("construct_geogrid", GeoGrid, np.arange(2.0),
+                     represent(lat_in), represent(lon_in), silence_level=3)
     if not ok:
         return
     # stored coordinates
@@ -237,7 +237,7 @@ def oracle_euclidean(case, rec):
         rec.label("coincident")
     if ndist >= 3:
         rec.nontrivial(True)
-    ok, g = rec.call("construct_grid", Grid, np.arange(2.0), X_in,
+    ok, g = rec.call("construct_grid", Grid, np.arange(2.0), represent(X_in),
                      silence_level=3)
     if not ok:
         return
@@ -407,8 +407,8 @@ def oracle_geonet(case, rec):
     if np.any(np.abs(lat) == 90.0):
         rec.label("polar")
 
-    ok, g = rec.call("construct_geogrid", GeoGrid, np.arange(2.0), lat_in,
-                     lon_in, silence_level=3)
+    ok, g = rec.call("construct_geogrid", GeoGrid, np.arange(2.0),
+                     represent(lat_in), represent(lon_in), silence_level=3)
     if not ok:
         return
     ok, net = rec.call("construct_geonetwork", GeoNetwork, g,
@@ -634,7 +634,7 @@ def oracle_spatialnet(case, rec):
     rec.label("directed" if directed else "undirected")
     if A.sum() and _distinct_points(zip(*X.tolist())) >= 2:
         rec.nontrivial(True)
-    ok, g = rec.call("construct_grid", Grid, np.arange(2.0), X_in,
+    ok, g = rec.call("construct_grid", Grid, np.arange(2.0), represent(X_in),
                      silence_level=3)
     if not ok:
         return
